@@ -14,7 +14,7 @@ PROPS = {
 OPS_OF = {'C01': 'NIRGEC', 'C02': 'SFQ', 'C10': 'D'}
 CLASSES = ['db', 'mutex', 'olc']
 KINDS = ['u64', 'bytes']
-SEQ_FLAGS = ['-O1', '-DNDEBUG', '-DUNODB_DETAIL_WITH_STATS', '-DUNODB_SPINLOCK_LOOP_VALUE=1']
+SEQ_FLAGS = ['-O1', '-DNDEBUG', '-DUNODB_DETAIL_WITH_STATS', '-DUNODB_SPINLOCK_LOOP_VALUE=1', '-DUNODB_DETAIL_VERIF_HOOKS']
 
 
 def repo_srcs():
@@ -60,6 +60,8 @@ def first_problem(pid, sizes, lines, impl, model):
         a = impl[i] if i < len(impl) else '<missing>'
         m = model[i] if i < len(model) else '<missing>'
         rel = op in OPS_OF[pid]
+        if op == 'N' and pid == 'C10' and 'LEAK' in a:
+            return (i, 'property', 'memory still held from the allocator after the index was destroyed: ' + a)
         if op == 'D':
             probs = orc.check_dump(a) if a != '<missing>' else ['no output']
             if pid == 'C10' and probs:
@@ -147,8 +149,9 @@ def check(pid, tier, replay=None):
         lines = []
         bounds = []
         for h in hs:
-            bounds.append((len(lines), len(lines) + len(h.ops), h.tag))
-            lines += h.ops
+            ops = h.ops + ['N']   # destroy the index at the end of its history (C10: everything is returned to the allocator)
+            bounds.append((len(lines), len(lines) + len(ops), h.tag))
+            lines += ops
             dist[h.tag.split('-')[0]] = dist.get(h.tag.split('-')[0], 0) + 1
         for cls in CLASSES:
             zline, sizes = sizes_of(cls, kind)
@@ -210,6 +213,9 @@ def check(pid, tier, replay=None):
                 lo, hi, tag = bounds[min(len(bounds) - 1, 3 + len(samples))]
                 samples.append({'class': cls, 'kind': kind, 'history': tag, 'ops': lines[lo:hi][:12],
                                 'impl': [x[:140] for x in impl[lo:hi][:12]]})
+    if pid == 'C10':
+        import p_olc
+        p_olc.c10_concurrent(res, tier)
     if not res.proof_ok and not res.violations:
         res.violation('proof obligation no longer checks: ' + ' | '.join(res.broken)[:500],
                       {'kind': 'proof', 'broken': res.broken, 'log': res.proof_log[-1500:]}, found_input=False)
